@@ -58,6 +58,11 @@ add("C20", "pbt", "property-based testing: i128 reference model for ranges; roun
     "Embedded terms compared by denoted value after the wire; documented conventions of the wrappers (nil = absent, module prefix stripping) are respected by the generator.",
     "DESIGN.md §7 C20")
 
+add("C02", "pbt", "adversarial input generation + fuzz-style mutation, executed in an isolated worker process (2 MiB-stack threads, counting allocator); proptest shrinking in the parent",
+    "Count bombs for every length-bearing tag, nesting to depth 10^6 through every container tag, compressed sections that inflate to less/exactly/10^7x more than declared, every truncation of sampled encodings, mutations and raw bytes are run through all nine decoding entry points; each must return, the worker must stay alive (no abort / stack overflow), and peak requested memory must stay within 1 MiB + 256 x (input + legitimately inflated bytes).",
+    "2 MiB stack = tokio default worker; harness built with opt-level 2; allocation bound constants justified in DESIGN.md.",
+    "DESIGN.md §7 C02")
+
 hooks_commits = []
 try:
     out = subprocess.run(["git", "-C", "/repo", "log", "--format=%H %s"], capture_output=True, text=True).stdout
